@@ -268,6 +268,7 @@ type subResult struct {
 	reports []*Report
 	crashes []Failure
 	herr    string
+	overrun int
 }
 
 func run(prop, tier string) int {
@@ -329,9 +330,17 @@ func runSub(build, tmp string, s plan.Sub, tier string, seed int64) *subResult {
 				if s.Mode == "race" {
 					cmd.Env = append(os.Environ(), "GORACE=halt_on_error=0 exitcode=0 log_path="+out+".race")
 				}
-				timer := time.AfterFunc(time.Duration(budget+120)*time.Second, func() { cmd.Process.Kill() })
+				killed := false
+				timer := time.AfterFunc(time.Duration(3*budget+600)*time.Second, func() { killed = true; cmd.Process.Kill() })
 				err := cmd.Run()
 				timer.Stop()
+				if killed {
+					// the machine is too loaded for this shard to finish: not a verdict
+					mu.Lock()
+					res.overrun++
+					mu.Unlock()
+					return
+				}
 				b, rerr := os.ReadFile(out)
 				if s.Mode == "race" {
 					if logs, _ := filepath.Glob(out + ".race.*"); len(logs) > 0 {
@@ -444,6 +453,10 @@ func merge(prop, tier string, seed int64, results []*subResult, wall time.Durati
 		for _, cr := range r.crashes {
 			viol = append(viol, cr)
 			violCount++
+		}
+		if r.overrun > 0 {
+			c.Exhaustive = false
+			c.Notes = append(c.Notes, fmt.Sprintf("%s: %d shards were stopped by the driver's overrun guard (machine overloaded); their part of the space is not covered", r.sub.Name, r.overrun))
 		}
 		for _, rep := range r.reports {
 			if rep == nil {
